@@ -61,6 +61,9 @@ def check_enum_tables(ctx, prog, rule="c10.orient"):
 def run(ctx):
     prog = ctx.prog
     check_enum_tables(ctx, prog)
+    # the orientation class of a window is its wall's: compass sectors of the azimuth, HZ by tilt class (the classifier tables C11 reads)
+    from .c11 import check_classifiers
+    check_classifiers(ctx, prog, rule="c10.classifier")
     f = prog.method("energy::indicators::qsoljul::QSolJulData", None, "from")
     from ..loops import check_no_early_exit
     check_no_early_exit(ctx, "c10.loop", prog, f, "q_sol;jul")
